@@ -6,6 +6,7 @@
      inc  {a, t, nr, maxnr, ok, wl, rt}   emitted by the hook inside the critical section
                                           (t, rt in ms since the limiter's start time)
      http {a, nr, maxhdr, status}         the HTTP response of the request counted as (a, nr)
+     rc   {a, count, max}                 answer of GET /reqcount for address a (sequential phases only)
      end  {}                              end of scenario: every counted request was answered
      race {site}                          Go race detector report (no action allows it)      *)
 EXTENDS TraceLib, LimiterOps, FiniteSets
@@ -47,6 +48,11 @@ Http == /\ e.ev = "http"
            /\ pending' = pending \ m
         /\ UNCHANGED <<rt, cnt, max, interval>>
 
+\* GET /reqcount reads the counter of the current interval without counting itself
+Rc == /\ e.ev = "rc"
+      /\ Clause("C20.reqcount", e.status = 200 /\ e.count = Cnt(e.a) /\ e.max = max, <<"a", e.a, "count", e.count, "expected", Cnt(e.a), "max", e.max>>)
+      /\ UNCHANGED <<rt, cnt, max, interval, pending>>
+
 End == /\ e.ev = "end"
        /\ Clause("C20.http.answered", Get(e, "http", FALSE) => pending = {}, <<"unanswered", Cardinality(pending)>>)
        /\ pending' = {}
@@ -57,7 +63,7 @@ Race == /\ e.ev = "race"
         /\ UNCHANGED <<rt, cnt, max, interval, pending>>
 
 Step == /\ l <= Len(Trace)
-        /\ (Hdr \/ Inc \/ Http \/ End \/ Race)
+        /\ (Hdr \/ Inc \/ Http \/ Rc \/ End \/ Race)
         /\ l' = l + 1
 Done == l = Len(Trace) + 1 /\ Consumed(Len(Trace)) /\ UNCHANGED vars
 Spec == Init /\ [][Step \/ Done]_vars
